@@ -78,6 +78,7 @@ class H:
         grid: int = 200,
         path_timeout: Optional[int] = None,
         py_flags: Sequence[str] = (),
+        hash_seeds: Sequence[str] = (),
     ) -> None:
         self.name = name
         self.fn = fn
@@ -92,6 +93,9 @@ class H:
         self.path_timeout = path_timeout
         #: interpreter flags for the processes that execute this harness (e.g. ["-O"])
         self.py_flags = list(py_flags)
+        #: if given: the concrete grid is additionally run once per PYTHONHASHSEED value and the ``detail`` strings the
+        #: harness returns (third tuple element) are compared byte-wise across the processes
+        self.hash_seeds = list(hash_seeds)
 
     def bounds_text(self) -> List[str]:
         return [p.describe() for p in self.params] + ["pre: " + e for e in self.extra_pre]
